@@ -86,6 +86,7 @@ class FunctionResult:
         self.stats = {}
         self.wall = 0.0
         self.vacuity = {}
+        self.fail_fast = False
 
     @property
     def ok(self):
@@ -482,7 +483,11 @@ def _verify(contract, index, schema_mod, fs, res):
             if z3.is_true(c):
                 status, model, ms, exact = "proved", None, 0.0, True
             else:
-                status, model, ms, exact = discharge(axioms, pc, cond, contract.timeout)
+                # once an obligation of this function has failed, the remaining ones get a short budget
+                budget = contract.timeout if not res.fail_fast else min(contract.timeout, 1500)
+                status, model, ms, exact = discharge(axioms, pc, cond, budget)
+                if status != "proved":
+                    res.fail_fast = True
             total_ms += ms
             size += sum(len(str(x)) for x in pc[-3:]) if False else 0
             if status != "proved":
